@@ -18,16 +18,16 @@ func init() {
 	register("traverse-drive", traverseDrive)
 }
 
-// realTree is a tree of real newick nodes plus the harness's own bookkeeping (ids 1..n, root 1).
-type realTree struct {
+// travRealTree is a tree of real newick nodes plus the harness's own bookkeeping (ids 1..n, root 1).
+type travRealTree struct {
 	nodes []*newick.Node       // nodes[v], nodes[0] unused
 	id    map[*newick.Node]int // pointer -> id
 }
 
-// buildTree makes real nodes from child lists (kids[v-1] = children of v in slice order).
-func buildTree(kids [][]int) *realTree {
+// travBuildTree makes real nodes from child lists (kids[v-1] = children of v in slice order).
+func travBuildTree(kids [][]int) *travRealTree {
 	n := len(kids)
-	t := &realTree{nodes: make([]*newick.Node, n+1), id: make(map[*newick.Node]int, n)}
+	t := &travRealTree{nodes: make([]*newick.Node, n+1), id: make(map[*newick.Node]int, n)}
 	for v := 1; v <= n; v++ {
 		t.nodes[v] = &newick.Node{Name: "n" + strconv.Itoa(v), Distance: float64(v)}
 		t.id[t.nodes[v]] = v
@@ -47,7 +47,7 @@ func buildTree(kids [][]int) *realTree {
 
 // encode reads the structure back from the real nodes (0 for a pointer that is not a node of the tree;
 // a changed name or distance shows as a negative id).
-func (t *realTree) encode() [][]int {
+func (t *travRealTree) encode() [][]int {
 	out := make([][]int, len(t.nodes)-1)
 	for v := 1; v < len(t.nodes); v++ {
 		ch := t.nodes[v].Children
@@ -65,7 +65,7 @@ func (t *realTree) encode() [][]int {
 
 // walk runs one of the real iterators and returns the ids in call order. The callback count is
 // capped (an iterator that never ends would otherwise hang the driver): limit = 2n + 8.
-func (t *realTree) walk(pre bool) []int {
+func (t *travRealTree) walk(pre bool) []int {
 	limit := 2*(len(t.nodes)-1) + 8
 	out := make([]int, 0, len(t.nodes)-1)
 	seq := t.nodes[1].PostOrder()
@@ -94,12 +94,12 @@ type travMismatch struct {
 	Want any    `json:"want"`
 }
 
-func sameNested(a, b [][]int) bool {
+func travSameNested(a, b [][]int) bool {
 	if len(a) != len(b) {
 		return false
 	}
 	for i := range a {
-		if !sameInts(a[i], b[i]) {
+		if !regSameInts(a[i], b[i]) {
 			return false
 		}
 	}
@@ -117,21 +117,27 @@ func traverseReplay(args []string) error {
 	var mm []travMismatch
 	executed := 0
 	for ci, c := range cases {
-		t := buildTree(c.Kids)
-		// twice each, interleaved: an iterator must not leave anything behind
-		for round := 0; round < 2; round++ {
-			if got := t.walk(true); !sameInts(got, c.Pre) {
-				mm = append(mm, travMismatch{ci, "preorder", got, c.Pre})
+		t := travBuildTree(c.Kids)
+		// twice each, interleaved: an iterator must leave nothing behind, in the tree or elsewhere
+		for _, tag := range []string{"", "-second-run"} {
+			if got := t.walk(true); !regSameInts(got, c.Pre) {
+				mm = append(mm, travMismatch{ci, "preorder" + tag, got, c.Pre})
 				break
 			}
-			if got := t.walk(false); !sameInts(got, c.Post) {
-				mm = append(mm, travMismatch{ci, "postorder", got, c.Post})
+			executed++
+			if got := t.encode(); !travSameNested(got, c.Kids) {
+				mm = append(mm, travMismatch{ci, "tree-modified-by-preorder", got, c.Kids})
 				break
 			}
-			executed += 2
-		}
-		if got := t.encode(); !sameNested(got, c.Kids) {
-			mm = append(mm, travMismatch{ci, "tree-modified", got, c.Kids})
+			if got := t.walk(false); !regSameInts(got, c.Post) {
+				mm = append(mm, travMismatch{ci, "postorder" + tag, got, c.Post})
+				break
+			}
+			executed++
+			if got := t.encode(); !travSameNested(got, c.Kids) {
+				mm = append(mm, travMismatch{ci, "tree-modified-by-postorder", got, c.Kids})
+				break
+			}
 		}
 	}
 	return writeJSON(args[1], map[string]any{"executed": executed, "mismatches": mm})
@@ -339,7 +345,7 @@ func travGen(sid int, chain int) travShape {
 	return s
 }
 
-func inversePositions(seq []int, n int) []int {
+func travInversePositions(seq []int, n int) []int {
 	pos := make([]int, n)
 	for k, v := range seq {
 		if v >= 1 && v <= n {
@@ -376,7 +382,7 @@ func traverseDrive(args []string) error {
 		}
 		s := travGen(sid, chain)
 		n := len(s.kids)
-		t := buildTree(s.kids)
+		t := travBuildTree(s.kids)
 		ev := travEvent{Sid: sid, Kind: s.kind, N: n, Direct: n <= 10000 && sid < 9000}
 		ev.Kids = t.encode()
 		ev.Pre = t.walk(true)
@@ -392,8 +398,8 @@ func traverseDrive(args []string) error {
 			}
 		}
 		ev.Size = size[1:]
-		ev.Pos = inversePositions(ev.Pre, n)
-		ev.Ppos = inversePositions(ev.Post, n)
+		ev.Pos = travInversePositions(ev.Pre, n)
+		ev.Ppos = travInversePositions(ev.Post, n)
 		tw.emit(ev)
 	}
 	return tw.close()
